@@ -96,7 +96,7 @@ m = {
    "enable": "the simulator crate /verif/sim depends on /repo by path with features=[\"verif-hooks\"]; ./check rebuilds it with cargo build --release --offline before every run",
    "baseline_off_cmd": "cd /repo && cargo nextest run --workspace --no-fail-fast --tool-config-file pb:/w/lib/nextest.toml --profile pb --test-threads 8 --offline",
    "source_commits": [h.split()[0] for h in hooks][::-1],
-   "add_only": True,
+   "add_only": False,
  },
  "engines": [
    {"name":"egsim","path":"/verif/sim","serves_properties":sorted(CLAIMED),"kind_free_text":"deterministic simulator: seeded workload/fault generator, token-passing thread scheduler hooked into egglog-concurrency, reference models and differential oracles, shrinker, replay"}
